@@ -118,3 +118,45 @@ pub mod r_big_mod {
         block.len()
     }
 }
+
+// modules mixing by-reference and by-value deps: a by-value async method owns `self`, so its future
+// is only Send when the application type is — wherever in the module that method is declared
+pub trait MDep {
+    fn m(&self) -> u32;
+}
+#[entrait(pub RefThenValue)]
+pub mod ref_then_value {
+    use super::MDep;
+    pub fn describe(deps: &impl MDep) -> u32 {
+        deps.m()
+    }
+    pub async fn by_ref(deps: &impl MDep, x: u32) -> u32 {
+        deps.m() + x
+    }
+    pub async fn run_owned<D: MDep>(deps: D, x: u32) -> u32 {
+        deps.m() + x
+    }
+}
+#[entrait(pub ValueThenRef)]
+pub mod value_then_ref {
+    use super::MDep;
+    pub async fn run_owned_first<D: MDep>(deps: D, x: u32) -> u32 {
+        deps.m() + x
+    }
+    pub fn describe2(deps: &impl MDep) -> u32 {
+        deps.m()
+    }
+}
+#[entrait(pub RefValueRef)]
+pub mod ref_value_ref {
+    use super::MDep;
+    pub fn a1(deps: &impl MDep) -> u32 {
+        deps.m()
+    }
+    pub async fn a2(deps: impl MDep, x: u32) -> u32 {
+        deps.m() + x
+    }
+    pub async fn a3(deps: &impl MDep, x: u32) -> u32 {
+        deps.m() + x
+    }
+}
